@@ -79,7 +79,9 @@ def check_tokens(text, obs, oscat):
             rc = ref_linecol(text, start)
             if rc is not None and not in_body:
                 line, cols = rc
-                if (t[3] != line or t[4] not in cols):
+                # the column counts characters: the unit of the positions the CLI prints for labels (codespan), so that
+                # "at line L column C" in a message and the position drawn for the same label agree
+                if (t[3] != line or t[4] != cols[1]):
                     return ("wrong-line-col", "linecol:%s" % ("line" if t[3] != line else "col"),
                             {"token": t[5][:30], "reported": [t[3], t[4]], "reference_line": line, "reference_cols": cols})
         pos = end
@@ -398,6 +400,14 @@ def shard(shard_i, nshards, payload):
                 tw = {"k": "raw", "text": twin}
                 faults.insert(0, ("DUP", "twin:%s" % d["k"], ([tw] + decls) if rng.random() < 0.5 else (decls + [tw]),
                                   [d["name"]]))
+            # a recursion cycle with users of its members declared before, between and after them: the label names a member
+            cyc = [{"k": "raw", "text": "FUNCTION_BLOCK CycInnocent%d\nVAR a : CycAlpha%d; END_VAR\nEND_FUNCTION_BLOCK" % (i, i)},
+                   {"k": "raw", "text": "FUNCTION_BLOCK CycAlpha%d\nVAR b : CycBeta%d; END_VAR\nEND_FUNCTION_BLOCK" % (i, i)},
+                   {"k": "raw", "text": "FUNCTION_BLOCK CycBeta%d\nVAR a : CycAlpha%d; END_VAR\nEND_FUNCTION_BLOCK" % (i, i)},
+                   {"k": "raw", "text": "PROGRAM CycMain%d\nVAR i : CycInnocent%d; END_VAR\ni();\nEND_PROGRAM" % (i, i)}]
+            order = rng.sample(range(4), 4)
+            faults.insert(0, ("P0010", "cycle-with-users", [cyc[j_] for j_ in order[:2]] + decls[:2] + [cyc[j_] for j_ in order[2:]],
+                              ["CycAlpha%d" % i, "CycBeta%d" % i]))
             seen = set()
             for code, site, mutant, spellings in faults:
                 if (code, site.split(":")[0]) in seen or len(seen) >= payload["faults_per_unit"]:
@@ -462,7 +472,8 @@ def shard(shard_i, nshards, payload):
                 if good and i % 4 == 1 and len(files) == 2:
                     lsp_positions(res, probe, tmp, text, code, case)
                 # (5) the CLI's line:col for the planted code
-                if good and i % 2 == 0 and core.PLC_BIN:
+                # (which member of a cycle is named may differ from run to run: nothing to compare across processes there)
+                if good and i % 2 == 0 and core.PLC_BIN and site != "cycle-with-users":
                     d_ = os.path.join(tmp, "u%d" % i)
                     os.makedirs(d_, exist_ok=True)
                     for n, t in files:
